@@ -79,6 +79,7 @@ fn main() {
             "spki" => keyspki::run_spki(sc),
             "keytable" => keyspki::run_keytable(sc),
             "keyjson" => keyspki::run_keyjson(sc),
+            "rsa_pkcs8" => keyspki::run_rsa_pkcs8(sc),
             _ => json!({"outcome": "unsupported-kind"}),
         });
         out.push(r);
